@@ -22,7 +22,7 @@ from mc import tunables
 MAX_TOLERATED = tunables.watchdog_max_failures()   # "the tolerated maximum": bellows' MAX_WATCHDOG_FAILURES, not fixed by the property
 PERIOD_SMALL = 3
 OUTCOMES_V4 = ["ok", "silent", "stopped", "invalid"]
-OUTCOMES = ["ok", "silent-counters", "silent-buffers", "stopped", "invalid"]
+OUTCOMES = ["ok", "silent-counters", "silent-buffers", "stopped", "invalid", "ok-nobuf"]   # ok-nobuf: counters read, the free-buffer value is refused (a successful feed)
 INVALID = ("__raw__", 0x58, b"\x36")     # the NCP answers the keep-alive with invalidCommand (reason: unsupported) -- an EZSP error
 CMD_TIMEOUT = tunables.ezsp_cmd_timeout()
 
@@ -54,7 +54,7 @@ class World:
         ncp.handlers["nop"] = lambda a: None if "nop" in self.mute else (INVALID if "invalid" in self.mute else [])
         ncp.handlers["readCounters"] = lambda a: counters(a, "read")
         ncp.handlers["readAndClearCounters"] = lambda a: counters(a, "clear")
-        ncp.handlers["getValue"] = lambda a: None if "buffers" in self.mute else [t.EzspStatus.SUCCESS, b"\x20"]
+        ncp.handlers["getValue"] = lambda a: None if "buffers" in self.mute else ([t.EzspStatus.ERROR_INVALID_ID, b""] if "nobuf" in self.mute else [t.EzspStatus.SUCCESS, b"\x20"])
         # reference state
         self.run = 0        # consecutive failures
         self.ordinal = 0    # feeds so far
@@ -79,6 +79,8 @@ class World:
             self.mute = {"buffers"}
         elif outcome == "invalid":
             self.mute = {"invalid"}
+        elif outcome == "ok-nobuf":
+            self.mute = {"nobuf"}
         self.at_deadline = outcome == "deadline"
         if outcome == "stopped":
             self.ezsp.stop_ezsp()
@@ -116,7 +118,7 @@ class World:
             return
         # reference
         self.ordinal += 1
-        failed = outcome != "ok"
+        failed = outcome not in ("ok", "ok-nobuf")
         if failed:
             self.run += 1
         else:
